@@ -165,8 +165,8 @@ VARIANTS = [
     V("C04", "parent publicity ignored", VIS, "            return parent.is_public\n", "            return True\n", "C04.PUBLICITY-TABLE"),
     V("C04", "path segments not checked", VIS, "        return all(not is_internal(it) for it in qname.split(\".\")[:-1])", "        return True", "C04.PUBLICITY-TABLE"),
     V("C04", "class publicity of other name", VIS, "            is_public=self._is_public(node.name, node.fullname),\n            docstring=docstring,", "            is_public=self._is_public(id_, node.fullname),\n            docstring=docstring,", "C04.JSON-FLAG"),
-    V("C04", "by-name guard flattened", VIS, "                            if f\".{qname}\".endswith(f\".{qualified_import.qualified_name}\") and (\n                                qualified_import.alias is not None\n                                and not is_internal(qualified_import.alias)\n                                or (qualified_import.alias is None and not_internal)\n                            ):",
-      "                            if (\n                                f\".{qname}\".endswith(f\".{qualified_import.qualified_name}\")\n                                and qualified_import.alias is not None\n                                and not is_internal(qualified_import.alias)\n                                or (qualified_import.alias is None and not_internal)\n                            ):", "C04.REEXPORT-GUARDS"),
+    V("C04", "by-name guard flattened", VIS, "                            if qname in {\n                                qualified_import.qualified_name,\n                                f\"{reexport_source.id.replace('/', '.')}.{qualified_import.qualified_name}\",\n                            } and (\n                                qualified_import.alias is not None\n                                and not is_internal(qualified_import.alias)\n                                or (qualified_import.alias is None and not_internal)\n                            ):",
+      "                            if (\n                                qname in {qualified_import.qualified_name, f\"{reexport_source.id.replace('/', '.')}.{qualified_import.qualified_name}\"}\n                                and qualified_import.alias is not None\n                                and not is_internal(qualified_import.alias)\n                                or (qualified_import.alias is None and not_internal)\n                            ):", "C04.REEXPORT-GUARDS"),
     V("C04", "internal alias accepted", VIS, "                                    or (qualified_import.alias is not None and not is_internal(qualified_import.alias))\n", "                                    or qualified_import.alias is not None\n", "C04.REEXPORT-GUARDS"),
     V("C04", "unparse round trip", VIS, "<<unparse>>", "", None),
     # ------------------------------------------------------------------ C11
@@ -384,7 +384,7 @@ VARIANTS += [
     V("C04", "imports inside functions recorded as re-exports again", VIS, "            if not import_.is_top_level:\n                continue\n\n", "", "C04.REEXPORT-SOURCE"),
 ]
 VARIANTS += [
-    V("C04", "by-name re-export matched by plain suffix again", VIS, "if f\".{qname}\".endswith(f\".{qualified_import.qualified_name}\") and (", "if qname.endswith(qualified_import.qualified_name) and (", "C04.REEXPORT-GUARDS"),
+    V("C04", "by-name re-export matched by plain suffix again", VIS, "                            if qname in {\n                                qualified_import.qualified_name,\n                                f\"{reexport_source.id.replace('/', '.')}.{qualified_import.qualified_name}\",\n                            } and (", "                            if qname.endswith(qualified_import.qualified_name) and (", "C04.REEXPORT-GUARDS"),
     V("C04", "every name ending in two underscores exempt again", VIS, "if is_internal(name) and not (name.startswith(\"__\") and name.endswith(\"__\")):", "if is_internal(name) and not name.endswith(\"__\"):", "C04.PUBLICITY-TABLE"),
 ]
 VARIANTS += [
@@ -585,4 +585,29 @@ VARIANTS += [
       "            for docstring_section in griffe_docstring.parsed:\n                if docstring_section.kind == DocstringSectionKind.text:\n                    # A docstring can have several text sections, e.g. text before and after the parameters\n                    description = f\"{description}\\n\\n{docstring_section.value}\".strip(\"\\n\")\n                elif docstring_section.kind == DocstringSectionKind.examples:\n                    for example_data in docstring_section.value:\n                        examples.append(example_data[1].strip(\"\\n\"))\n",
       "            sections = {section.kind: section.value for section in griffe_docstring.parsed}\n            description = sections.get(DocstringSectionKind.text, \"\").strip(\"\\n\")\n            examples = [example_data[1].strip(\"\\n\") for example_data in sections.get(DocstringSectionKind.examples, [])]\n",
       "C13.ACCUMULATE"),
+]
+_SEL_OLD = ("    shortest_id = None\n    alias = None\n    # Sorted, so that ties between re-exports of the same length are always resolved the same way\n"
+            "    for module_id_tuple in sorted(module_ids, key=lambda it: (it[0], it[1] or \"\")):\n        module_id_parts = module_id_tuple[0].split(\"/\")\n"
+            "        if shortest_id is None or len(module_id_parts) < len(shortest_id):\n            shortest_id = module_id_parts\n            alias = module_id_tuple[1]\n\n"
+            "    if shortest_id is None:\n        return \"\", \"\"\n    return \".\".join(shortest_id), alias or \"\"\n")
+VARIANTS += [
+    V("C11", "import package chosen by min() over the string length of the id", HELP, _SEL_OLD,
+      "    if not module_ids:\n        return \"\", \"\"\n    shortest_id, alias = min(module_ids, key=lambda it: (len(it[0]), it[0], it[1] or \"\"))\n    return shortest_id.replace(\"/\", \".\"), alias or \"\"\n",
+      "C11.MOVE-IMPORT-AGREE"),
+    V("C11", "benign: import package chosen by min() over the segment count", HELP, _SEL_OLD,
+      "    if not module_ids:\n        return \"\", \"\"\n    shortest_id, alias = min(module_ids, key=lambda it: (len(it[0].split(\"/\")), it[0], it[1] or \"\"))\n    return shortest_id.replace(\"/\", \".\"), alias or \"\"\n",
+      None),
+]
+VARIANTS += [
+    V("C04", "imported name compared with the tail of the qualified name again", VIS,
+      "                            if qname in {\n                                qualified_import.qualified_name,\n                                f\"{reexport_source.id.replace('/', '.')}.{qualified_import.qualified_name}\",\n                            } and (",
+      "                            if f\".{qname}\".endswith(f\".{qualified_import.qualified_name}\") and (", "C04.REEXPORT-GUARDS"),
+    V("C04", "benign: resolutions of the imported name built before the test", VIS,
+      "                            if qname in {\n                                qualified_import.qualified_name,\n                                f\"{reexport_source.id.replace('/', '.')}.{qualified_import.qualified_name}\",\n                            } and (",
+      "                            source_package = reexport_source.id.replace('/', '.')\n                            if qname in {qualified_import.qualified_name, f\"{source_package}.{qualified_import.qualified_name}\"} and (", None),
+    V("C04", "dunder members judged by their qualified name again", VIS,
+      "        if isinstance(parent, Class):\n            return parent.is_public\n",
+      "        if isinstance(parent, Class) and (name == \"__init__\" or not is_internal(name)):\n            return parent.is_public\n", "C04.PUBLICITY-TABLE"),
+    V("C05", "fallback class of a tuple type ignored again", VIS,
+      "            if fallback.fullname != \"builtins.tuple\":", "            if False:", "C05.CTOR-TABLE"),
 ]
